@@ -21,7 +21,8 @@ from ..ref.state import phys, spsr_name
 ID = "C03"
 CODE = isa.CODE
 MID, LOW, HIGH = 0x10400, 0x8, 0xFFFFFFF8
-ADDRS = [MID, LOW, HIGH]
+HIGH_IN = 0xFFFFFF00      # high but not wrapping: final addresses stay in [2^31, 2^32), which a wrong modulus (2^31) changes
+ADDRS = [MID, LOW, HIGH, HIGH_IN]
 M = machine.MODES
 MODES5 = ["svc", "fiq", "irq", "sys", "usr"]
 PRIV = ["svc", "fiq", "irq", "abt"]
